@@ -41,6 +41,7 @@ class Ctx:
         self.paths = 0
         self.twins_sat = 0
         self.twins_unknown = 0
+        self.dead_paths = 0
         self.notes = []
         self.bounds = {}
         self.shadows = []          # (name, replay, sampler, key): concrete fall-back when the job cannot be executed symbolically
@@ -77,7 +78,7 @@ class Ctx:
         elif r == "unknown":
             self.twins_unknown += 1
         else:
-            self._rec(f"twin:{label}", "vacuous", dt, "twin", detail="assumptions + path condition are unsatisfiable")
+            self.dead_paths += 1          # the explorer could not refute this path within its short budget; the twin query did: nothing to prove on it
         return r
 
     # -- equalities  got == expect
@@ -260,6 +261,10 @@ def _run_job(job):
         err = "PathAbort escaped"
     except Exception as ex:
         err = f"harness exception {type(ex).__name__}: {ex}\n{traceback.format_exc()[-1500:]}"
+    if err is None and ctx.dead_paths and ctx.twins_sat == 0 and ctx.twins_unknown == 0:
+        ctx._rec("twin:job", "vacuous", 0, "twin", detail="every explored path of this job is infeasible (contradictory assumptions)")
+    if ctx.dead_paths:
+        ctx.notes.append(f"{ctx.dead_paths} explored path(s) proved infeasible by the reachability twin and ignored")
     from . import npproxy
     return dict(job=job.name, records=ctx.records, functions=sorted(ctx.functions), paths=ctx.paths, twins_sat=ctx.twins_sat,
                 twins_unknown=ctx.twins_unknown, notes=ctx.notes, error=err, wall=round(time.time() - t0, 2),
